@@ -13,21 +13,27 @@ import (
 )
 
 type genCfg struct {
-	maxNodes, maxDepth, maxStmts int
+	maxNodes, maxDepth, maxStmts                                 int
 	wOpts, wIf, wSet, wJump, wCmd, wCall, wDeclare, wStop, wLine int // statement weights
-	exprDepth                                                       int
-	faultPct                                                        int // percent of expressions / names made faulty
-	randomFns                                                       bool
-	hostCmds                                                        bool
-	waitCmd                                                         bool
-	trackingHeaders                                                 bool
-	visitedFns                                                      bool
-	markupText                                                      bool
-	multiByte                                                       bool
-	compound                                                        bool // compound assignment operators
-	typeFaultPct                                                    int  // percent of assignments given a value of another type
-	domainFaults                                                    bool // out-of-domain arguments to built-ins
-	visitLines                                                      bool // every line shows the visit counters of every node
+	exprDepth                                                    int
+	faultPct                                                     int // percent of expressions / names made faulty
+	randomFns                                                    bool
+	hostCmds                                                     bool
+	waitCmd                                                      bool
+	trackingHeaders                                              bool
+	visitedFns                                                   bool
+	markupText                                                   bool
+	multiByte                                                    bool
+	compound                                                     bool // compound assignment operators
+	typeFaultPct                                                 int  // percent of assignments given a value of another type
+	domainFaults                                                 bool // out-of-domain arguments to built-ins
+	visitLines                                                   bool // every line shows the visit counters of every node
+	replPct                                                      int  // with markupText: percent of chunks carrying a replacement marker
+	loopPct                                                      int  // percent of nodes ending in a counted jump back to themselves / another node
+	neverPct                                                     int  // percent of nodes with "tracking: never" (0: the default mix)
+	bareSetPct                                                   int  // percent of assignments whose right-hand side is a bare literal or variable
+	firstLineRepl                                                bool // the first line of every node carries an open-form replacement marker
+	randomPct                                                    int  // percent of numeric expressions that are a call of dice / random_range / random
 }
 
 var flowCfg = genCfg{maxNodes: 4, maxDepth: 4, maxStmts: 5, wOpts: 5, wIf: 4, wSet: 3, wJump: 2, wCmd: 1, wCall: 1,
@@ -40,10 +46,10 @@ type dgen struct {
 	vars  map[string][]string // type -> names
 }
 
-func numLit(f float64) *sx.Node  { return sx.Tag("num", sx.Uint(math.Float64bits(f))) }
-func boolLit(b bool) *sx.Node    { return sx.Tag("bool", sx.Bool(b)) }
-func strLit(s string) *sx.Node   { return sx.Tag("str", sx.Str(s)) }
-func varRef(n string) *sx.Node   { return sx.Tag("var", sx.Str(n)) }
+func numLit(f float64) *sx.Node { return sx.Tag("num", sx.Uint(math.Float64bits(f))) }
+func boolLit(b bool) *sx.Node   { return sx.Tag("bool", sx.Bool(b)) }
+func strLit(s string) *sx.Node  { return sx.Tag("str", sx.Str(s)) }
+func varRef(n string) *sx.Node  { return sx.Tag("var", sx.Str(n)) }
 func fnCall(f string, a ...*sx.Node) *sx.Node {
 	return sx.Tag("fn", sx.Str(f), sx.List(a...))
 }
@@ -87,6 +93,9 @@ func (g *dgen) expr(t string, depth int) *sx.Node {
 	leaf := depth <= 0 || g.r.Intn(3) == 0
 	switch t {
 	case "num":
+		if g.cfg.randomPct > 0 && g.r.Intn(100) < g.cfg.randomPct {
+			return g.randomCall()
+		}
 		if leaf {
 			if g.r.Intn(2) == 0 && len(g.vars["num"]) > 0 {
 				return varRef(g.pick(g.vars["num"]))
@@ -94,6 +103,8 @@ func (g *dgen) expr(t string, depth int) *sx.Node {
 			return numLit(numLits[g.r.Intn(len(numLits))])
 		}
 		switch x := g.r.Intn(12); {
+		case g.cfg.randomFns && g.cfg.domainFaults && g.r.Intn(8) == 0:
+			return g.domainFault()
 		case x < 6:
 			return binOp([]string{"+", "-", "*", "/", "%"}[g.r.Intn(5)], g.expr("num", depth-1), g.expr("num", depth-1))
 		case x < 7:
@@ -105,32 +116,9 @@ func (g *dgen) expr(t string, depth int) *sx.Node {
 		case x < 10 && g.cfg.visitedFns && len(g.nodes) > 0:
 			return fnCall("visited_count", strLit(g.pick(g.nodes)))
 		case x < 11 && g.cfg.randomFns && g.cfg.domainFaults && g.r.Intn(3) == 0:
-			switch g.r.Intn(7) {
-			case 0:
-				return fnCall("dice", numLit(0))
-			case 1:
-				return fnCall("dice", g.lit(-3))
-			case 2:
-				return fnCall("dice", numLit(1e30))
-			case 3:
-				return fnCall("random_range", numLit(5), numLit(1))
-			case 4:
-				return fnCall("random_range", g.lit(-1e30), numLit(1e30))
-			case 5:
-				return fnCall("dice", binOp("/", numLit(0), numLit(0)))
-			default:
-				return fnCall("round_places", numLit(2.75), g.lit([]float64{-400, 400, 1e30, 2.5}[g.r.Intn(4)]))
-			}
+			return g.domainFault()
 		case x < 11 && g.cfg.randomFns:
-			switch g.r.Intn(3) {
-			case 0:
-				return fnCall("dice", numLit(float64(1+g.r.Intn(20))))
-			case 1:
-				lo := g.r.Intn(10) - 5
-				return fnCall("random_range", g.lit(float64(lo)), g.lit(float64(lo+g.r.Intn(12))))
-			default:
-				return fnCall("random")
-			}
+			return g.randomCall()
 		default:
 			return fnCall("number", g.expr([]string{"num", "bool"}[g.r.Intn(2)], depth-1))
 		}
@@ -162,6 +150,9 @@ func (g *dgen) expr(t string, depth int) *sx.Node {
 		if leaf {
 			if g.r.Intn(2) == 0 && len(g.vars["str"]) > 0 {
 				return varRef(g.pick(g.vars["str"]))
+			}
+			if g.cfg.markupText && g.r.Intn(5) == 0 {
+				return strLit([]string{"[b]", "[/b]", "]x", "[", "[z/]", "]", "a [i]b[/i]"}[g.r.Intn(7)])
 			}
 			return strLit(strLits[g.r.Intn(len(strLits))])
 		}
@@ -201,6 +192,64 @@ func (g *dgen) textChunk(first bool) string {
 	}
 	if g.r.Intn(12) == 0 {
 		s += []string{"#", "{", "}", "\\", "<", "/", "<<", "//"}[g.r.Intn(8)] + "z"
+	}
+	if g.cfg.markupText {
+		s = g.decorate(s)
+	}
+	return s
+}
+
+var markupNames = []string{"b", "i", "wave", "shake", "a1", "ü"}
+var markupLoose = []string{"[b]", "[/b]", "[/]", "[wave/]", "[wave /]", "[a=1]", "[/a]", "\\[", "\\]", "[", "]", "[/nope]", "[pause=500/]", "[b][i]", "[/i][/b]",
+	"[nomarkup]", "[/nomarkup]", "\\", "[x y=\"q r\"/]", "[/b ]", "[ b ]"}
+
+// decorate adds markup to a text chunk: mostly balanced (so that lines mostly render), sometimes a
+// replacement marker in its self-closing or its open form, sometimes loose brackets and backslashes.
+func (g *dgen) decorate(s string) string {
+	x := g.r.Intn(100)
+	switch {
+	case x < g.cfg.replPct:
+		switch g.r.Intn(8) {
+		case 0:
+			return s + "[nomarkup][z] \\[ " + g.pick(words) + "[/nomarkup]"
+		case 1:
+			return "[nomarkup]" + s + "[/nomarkup]"
+		case 2:
+			return s + "[select value=" + g.pick([]string{"m", "f", "x"}) + " m=\"he\" f=\"she\"/]"
+		case 3:
+			return s + "[select value=m m=\"he\" f=\"she\"]" + g.pick(words) + "[/select]"
+		case 4:
+			return s + "[plural value=" + strconv.Itoa(g.r.Intn(4)) + " one=\"% apple\" other=\"% apples\"/]"
+		case 5:
+			return s + "[plural value=2 one=\"% apple\" other=\"% apples\"]" + g.pick(words) + "[/plural]"
+		case 6:
+			return s + "[ordinal value=" + strconv.Itoa(g.r.Intn(25)) + " one=\"%st\" two=\"%nd\" few=\"%rd\" other=\"%th\"/]"
+		default:
+			return s + "[ordinal value=3 one=\"%st\" two=\"%nd\" few=\"%rd\" other=\"%th\"]" + g.pick(words) + "[/ordinal]"
+		}
+	case x < g.cfg.replPct+30:
+		n := g.pick(markupNames)
+		open := "[" + n
+		if g.r.Intn(3) == 0 {
+			open += []string{"=1", " k=v", " k=\"two words\"", "=true x=2.5"}[g.r.Intn(4)]
+		}
+		close := "[/" + n + "]"
+		if g.r.Intn(4) == 0 {
+			close = "[/]"
+		}
+		return open + "]" + s + close
+	case x < g.cfg.replPct+42:
+		bit := markupLoose[g.r.Intn(len(markupLoose))]
+		if g.r.Intn(2) == 0 {
+			return s + bit
+		}
+		cut := 0
+		for i := range s {
+			if g.r.Intn(3) == 0 {
+				cut = i
+			}
+		}
+		return s[:cut] + bit + s[cut:]
 	}
 	return s
 }
@@ -347,7 +396,11 @@ func (g *dgen) stmt(depth int) *sx.Node {
 		if c.typeFaultPct > 0 && g.r.Intn(40) == 0 {
 			name = "fresh" + strconv.Itoa(g.r.Intn(3)) // compound assignment to an unknown variable, or a first assignment
 		}
-		return sx.Tag("set", sx.Str(name), sx.Str(op), g.expr(vt, c.exprDepth))
+		d := c.exprDepth
+		if c.bareSetPct > 0 && g.r.Intn(100) < c.bareSetPct {
+			d = 0
+		}
+		return sx.Tag("set", sx.Str(name), sx.Str(op), g.expr(vt, d))
 	case 4:
 		return sx.Tag("jump", g.target())
 	case 5:
@@ -427,10 +480,26 @@ func (g *dgen) dialogue() []*sx.Node {
 			headers = append(headers, sx.List(sx.Str("tags"), sx.Str("a b")))
 		}
 		headers = append(headers, sx.List(sx.Str("title"), sx.Str(name)))
-		if g.cfg.trackingHeaders && g.r.Intn(3) == 0 {
+		if g.cfg.neverPct > 0 {
+			if g.r.Intn(100) < g.cfg.neverPct {
+				headers = append(headers, sx.List(sx.Str("tracking"), sx.Str("never")))
+			} else if g.r.Intn(4) == 0 {
+				headers = append(headers, sx.List(sx.Str("tracking"), sx.Str("always")))
+			}
+		} else if g.cfg.trackingHeaders && g.r.Intn(3) == 0 {
 			headers = append(headers, sx.List(sx.Str("tracking"), sx.Str([]string{"never", "always"}[g.r.Intn(2)])))
 		}
-		body := []*sx.Node{sx.Tag("line", sx.List(sx.Tag("t", sx.Str("node "+name))), sx.List(), sx.List())}
+		first := "node " + name
+		if g.cfg.firstLineRepl {
+			first = []string{
+				"node [nomarkup]" + name + " [b][/nomarkup]",
+				"node " + name + " [select value=m m=\"he\" f=\"she\"]x[/select]",
+				"node " + name + " [plural value=2 one=\"% apple\" other=\"% apples\"]y[/plural]",
+				"node " + name + " [ordinal value=3 one=\"%st\" two=\"%nd\" few=\"%rd\" other=\"%th\"]z[/ordinal]",
+				"node " + name,
+			}[g.r.Intn(5)]
+		}
+		body := []*sx.Node{sx.Tag("line", sx.List(sx.Tag("t", sx.Str(first))), sx.List(), sx.List())}
 		if i == 0 {
 			// most variables get a value first, so that scripts are mostly valid
 			for _, d := range []struct {
@@ -442,7 +511,20 @@ func (g *dgen) dialogue() []*sx.Node {
 				}
 			}
 		}
+		if i == 0 && g.cfg.loopPct > 0 {
+			body = append(body, sx.Tag("declare", sx.Str("lc"), numLit(0)))
+		}
 		body = append(body, g.stmts(0)...)
+		if g.cfg.loopPct > 0 && g.r.Intn(100) < g.cfg.loopPct {
+			// a counted loop: the statements above run again and again in one runner
+			to := name
+			if g.r.Intn(3) == 0 {
+				to = g.pick(g.nodes)
+			}
+			body = append(body,
+				sx.Tag("set", sx.Str("lc"), sx.Str("+="), numLit(1)),
+				sx.Tag("if", sx.Tag("clause", binOp("<", varRef("lc"), numLit(float64(2+g.r.Intn(4)))), sx.List(sx.Tag("jump", strLit(to))))))
+		}
 		nodes = append(nodes, sx.Tag("node", sx.List(headers...), sx.List(body...)))
 	}
 	// duplicate title: FindNode returns the first one
@@ -458,3 +540,56 @@ func (g *dgen) dialogue() []*sx.Node {
 // ("tags" < "title" < "tracking").
 
 func normaliseAdjacentText(nodes []*sx.Node) {}
+
+// domainFault: a call of a random built-in outside (or at the very edge of) its domain.
+func (g *dgen) domainFault() *sx.Node {
+	switch g.r.Intn(9) {
+	case 7:
+		// widths at the edge of int64: upper = 2^63 - 1024k, lower = upper - (2^63-1) + d
+		k := float64(1 + g.r.Intn(3))
+		up := 9223372036854775808.0 - 1024*k
+		lo := -(1024*k - 1) + float64([]int{0, 0, 0, -2, -1, 1, 2}[g.r.Intn(7)])
+		return fnCall("random_range", g.lit(lo), numLit(up))
+	case 8:
+		big := []float64{9e18, 9223372036854774784, 4611686018427387904, 9223372036854775808, 1e19}
+		a, b := big[g.r.Intn(len(big))], big[g.r.Intn(len(big))]
+		if g.r.Intn(2) == 0 {
+			return fnCall("random_range", numLit(a), g.lit(-b)) // reversed, more than 2^63 apart
+		}
+		return fnCall("random_range", g.lit(-a), numLit(b))
+	case 0:
+		return fnCall("dice", numLit(0))
+	case 1:
+		return fnCall("dice", g.lit(-3))
+	case 2:
+		return fnCall("dice", numLit(1e30))
+	case 3:
+		return fnCall("random_range", numLit(5), numLit(1))
+	case 4:
+		return fnCall("random_range", g.lit(-1e30), numLit(1e30))
+	case 5:
+		return fnCall("dice", binOp("/", numLit(0), numLit(0)))
+	default:
+		return fnCall("round_places", numLit(2.75), g.lit([]float64{-400, 400, 1e30, 2.5}[g.r.Intn(4)]))
+	}
+}
+
+// randomCall: a call of one of the random built-ins inside its domain.
+func (g *dgen) randomCall() *sx.Node {
+	switch g.r.Intn(4) {
+	case 0:
+		return fnCall("dice", numLit(float64(1+g.r.Intn(20))))
+	case 1:
+		lo := g.r.Intn(10) - 5
+		return fnCall("random_range", g.lit(float64(lo)), g.lit(float64(lo+g.r.Intn(12))))
+	case 2:
+		// wide ranges: Int63n / Int31n paths and their rejection sampling
+		w := []float64{1 << 31, 1<<31 + 1, 3e9, 1 << 40, 6e18, 9223372036854774784}[g.r.Intn(6)]
+		if g.r.Intn(2) == 0 {
+			return fnCall("dice", numLit(w))
+		}
+		return fnCall("random_range", g.lit(float64(-g.r.Intn(3))), numLit(w-1024))
+	default:
+		return fnCall("random")
+	}
+}
